@@ -785,7 +785,19 @@ class Fn:
                     bad(s, 'loop body changes the kind of ' + n)
             elif not n.startswith('$') and e.get(n) is not v:
                 bad(s, 'loop body rebinds %s, which is not a loop variable' % n)
-        return ' '.join([head] + [e[n].text for n, _ in params])
+        return '\x00%s\x01%s\x02' % (head, '\x01'.join(e[n].text for n, _ in params))      # finished by prune()
+
+    @staticmethod
+    def prune(head, params, inside, outside):
+        """keep only the loop parameters the loop reads or changes (so an unrelated local does not change its arity);
+        -> (kept parameters, texts with the calls written out)"""
+        pat = re.compile('\x00%s\x01([^\x02]*)\x02' % re.escape(head))
+        calls = [m.group(1).split('\x01') if m.group(1) else [] for t in inside for m in pat.finditer(t)]
+        plain = ' '.join(pat.sub(' ', t) for t in inside)
+        keep = [i for i, (_, v) in enumerate(params)
+                if re.search(r'\b%s\b' % re.escape(v.text), plain) or any(c[i] != v.text for c in calls)]
+        done = lambda t: pat.sub(lambda m: ' '.join([head] + [a for i, a in enumerate(m.group(1).split('\x01')) if i in keep]), t)
+        return [params[i] for i in keep], [done(t) for t in inside], [done(t) for t in outside]
 
     def sig(self, params, extra):
         ps = ['(%s : %s)' % c for c in self.ctx] + extra + ['(%s : %s)' % (v.text, TYPES[v.kind]) for _, v in params]
@@ -800,9 +812,10 @@ class Fn:
         again = lambda e: self.recur('%s %s fuel' % (name, self.ctxargs()), params, env, e, s)
         benv = {n: v for n, v in env.items() if n not in ('$buf', '$last')}
         body = self.tr(s.body, benv, K(again, None, again))
+        params, (body,), (start,) = self.prune('%s %s fuel' % (name, self.ctxargs()), params, [body], [again(env)])
         self.aux.append('Fixpoint %s %s {struct fuel} : pres (%s) :=\n  match fuel with\n  | O => PFuel\n  | S fuel =>\n%s\n  end.\n' % (
             name, self.sig(params, ['(fuel : nat)']), self.spec['rettype'], ind(ind(body))))
-        return lets + again(env)
+        return lets + start
 
     def for_(self, s, rest, env, k):
         if not isinstance(s.target, ast.Name):
@@ -835,6 +848,7 @@ class Fn:
             return t
         body = self.tr(s.body, dict(env, **{s.target.id: V(v, vk, var=False)}), K(nxt, after, nxt, k.layers))
         done = self.tr(s.orelse, {n: x for n, x in env.items() if n != s.target.id}, k.but(next=after))
+        params, (body, done), (start,) = self.prune(head, params, [body, done], [start])
         if rng:
             fx = 'Fixpoint %s %s {struct cnt_} : pres (%s) :=\n  match cnt_ with\n  | O =>\n%s\n  | S cnt_ =>\n%s\n  end.\n' % (
                 name, self.sig(params, []) + ' (cnt_ : nat) (%s : Z)' % v, self.spec['rettype'], ind(ind(done)), ind(ind(body)))
